@@ -70,6 +70,28 @@ void verif_unpoison(void *p, size_t n)
 #endif
 }
 
+/* Which bytes of [p, p+n) are uninitialised according to MemorySanitizer, as one number (0 in other builds).
+ * Part of every canonical state image: two states with equal bytes of which one holds values computed from
+ * uninitialised memory are different states (with the stack painted 0x00 such values are often the "right" ones). */
+uint64_t verif_shadow_sig(const void *p, size_t n)
+{
+#ifdef VERIF_MSAN
+    uint64_t h = 0;
+    size_t o = 0;
+    while (o < n) {
+        intptr_t k = __msan_test_shadow((const uint8_t *)p + o, n - o);
+        if (k < 0) break;
+        o += (size_t)k;
+        h = (h ^ (uint64_t)(o + 1)) * 0x100000001b3ULL + 0x9e3779b97f4a7c15ULL;
+        ++o;
+    }
+    return h;
+#else
+    (void)p; (void)n;
+    return 0;
+#endif
+}
+
 void out_digest(const char *tag, const void *out, size_t n)
 {
 #ifdef VERIF_MSAN
